@@ -613,3 +613,70 @@ MM("eod-cond-while-remaining-more-than-header", "C02.R5", [(F, PEEK, END_PROLOGU
 MM("empty-record-ends-the-settings", "C02.R5", [(F, UA, '        if setting.length == 0:\n            break\n' + UA)])
 MM("type-none-record-ends-the-settings", "C02.R5", [(F, UA, '        if setting.type == SettingsType.TYPE_NONE:\n            # padding\n            break\n' + UA)])
 MM("unknown-high-index-skipped", "C02.R5", [(F, UA, '        if setting.index > 0x7FFF:\n            continue\n' + UA)])
+
+# ------------------------------------------------------------------------------------------------ wave 7
+# R2 "no pretty function evaluated unless pretty is on": the raw / parsed views are total (any type, length, value bytes),
+# the pretty functions are not - they may only be *evaluated* (not merely: stored) on paths on which `pretty` holds.
+ITER_VALUES_LAZY = (
+    '    def _iter_values(self, pretty=False):\n'
+    '        for setting in self.settings_tuple:\n'
+    '            value = parsed = setting.value\n'
+    '            if setting.type == SettingsType.TYPE_SHORT:\n'
+    '                parsed = u16be(value)\n'
+    '            elif setting.type == SettingsType.TYPE_INT:\n'
+    '                parsed = u32be(value)\n'
+    '            pretty_func = SETTING_TO_PRETTYFUNC.get(setting.index) if pretty else None\n'
+    '            yield setting, value, parsed, pretty_func(parsed) if pretty_func else parsed\n'
+    '\n'
+)
+SMAP_DEF = '    def settings_map(self, index_type="enum", pretty=False, parse=True) -> MappingProxyType:\n'
+SMAP_SELECT = (
+    '        settings = OrderedDict()\n'
+    '        for setting, value, parsed, pretty_value in self._iter_values(pretty):\n'
+    + KEYSEL +
+    '            if pretty:\n'
+    '                settings[key] = pretty_value\n'
+    '            elif parse:\n'
+    '                settings[key] = parsed\n'
+    '            else:\n'
+    '                settings[key] = value\n'
+    '        return MappingProxyType(settings)\n'
+)
+# twins: the table lookup may be eager, the application is lazy (conditional expression / generator helper told the flag)
+TT("twin-pretty-lookup-eager-application-conditional", [(F, PRETTY, '            pretty_func = SETTING_TO_PRETTYFUNC.get(setting.index)\n'
+                                                                     '            val = pretty_func(val) if pretty and pretty_func else val\n')])
+TT("twin-pretty-short-circuit", [(F, PRETTY, '            pretty_func = pretty and SETTING_TO_PRETTYFUNC.get(setting.index)\n'
+                                             '            if pretty_func:\n                val = pretty_func(val)\n')])
+TT("twin-values-generator-told-the-flag", [(F, SMAP_DEF, ITER_VALUES_LAZY + SMAP_DEF), (F, SMAP, SMAP_SELECT)])
+# mutants: the pretty value is computed for every view and only *selected* by the flag / logged / computed by the helper up front
+MM("pretty-value-computed-before-the-flag-is-tested", "C02.R2", [(F, PRETTY, '            pretty_func = SETTING_TO_PRETTYFUNC.get(setting.index)\n'
+                                                                            '            pretty_val = pretty_func(val) if pretty_func else val\n'
+                                                                            '            if pretty:\n                val = pretty_val\n')])
+MM("pretty-value-logged-for-every-view", "C02.R2", [(F, '            settings[key] = val\n        return MappingProxyType(settings)\n',
+                                                     '            logger.debug("%s = %r", key, SETTING_TO_PRETTYFUNC.get(setting.index, repr)(val))\n'
+                                                     '            settings[key] = val\n        return MappingProxyType(settings)\n')])
+MM("helpers-prettify-called-up-front", "C02.R2", [(F, ITER_DEF, SMAP_HELPERS + ITER_DEF), (F, SMAP, SMAP_CALLS.replace(
+    '            if pretty:\n                val = _prettify_value(setting, val)\n',
+    '            pretty_val = _prettify_value(setting, val)\n            if pretty:\n                val = pretty_val\n'))])
+MM("values-generator-eager-subscript", "C02.R2", [(F, SMAP_DEF, ITER_VALUES_LAZY.replace(
+    '            pretty_func = SETTING_TO_PRETTYFUNC.get(setting.index) if pretty else None\n'
+    '            yield setting, value, parsed, pretty_func(parsed) if pretty_func else parsed\n',
+    '            known = setting.index in SETTING_TO_PRETTYFUNC\n'
+    '            yield setting, value, parsed, SETTING_TO_PRETTYFUNC[setting.index](parsed) if known else parsed\n') + SMAP_DEF), (F, SMAP, SMAP_SELECT)])
+
+# R6 "User-Agent continuation entered for every completely filled 128-byte field": whatever the other 127 bytes are, a field
+# whose last byte is not NUL continues.  Twins: other spellings of "the last byte is not NUL"; mutants: tests that look at the
+# bytes before the last one (a NUL anywhere / leading NULs) or that never hold.
+FILL = 'len(setting.value.rstrip(b"\\x00")) >= 0x80'
+TT("twin-ua-fill-last-byte-index", [(F, FILL, 'setting.value[-1] != 0')])
+TT("twin-ua-fill-last-byte-slice", [(F, FILL, 'setting.value[-1:] != b"\\x00"')])
+TT("twin-ua-fill-not-endswith-nul", [(F, FILL, 'not setting.value.endswith(b"\\x00")')])
+TT("twin-ua-fill-rstrip-is-identity", [(F, FILL, 'setting.value.rstrip(b"\\x00") == setting.value')])
+TT("twin-ua-fill-temporaries-merged", [(F, UA + WM, UA_MERGED.replace('            and ' + FILL + '\n', '            and filled\n').replace(
+    '        if (\n', '        ua = setting.value\n        filled = len(ua.rstrip(b"\\x00")) == len(ua)\n        if (\n', 1) + WM_MERGED)])
+MM("ua-fill-find-nul-anywhere", "C02.R6", [(F, UA + WM, UA_MERGED.replace(FILL, 'setting.value.find(b"\\x00") < 0') + WM_MERGED)])
+MM("ua-fill-strip-both-ends", "C02.R6", [(F, FILL, 'len(setting.value.strip(b"\\x00")) >= 0x80')])
+MM("ua-helper-returns-when-any-nul-counted", "C02.R6", [(F, ITER_DEF, UA_HELPER.replace(
+    '    if len(setting.value.rstrip(b"\\x00")) < 0x80:\n', '    if setting.value.count(b"\\x00"):\n') + ITER_DEF), (F, UA, UA_CALL)])
+MM("ua-fill-test-inverted", "C02.R6", [(F, FILL, 'len(setting.value.rstrip(b"\\x00")) < 0x80')])
+MM("ua-fill-first-byte-tested", "C02.R6", [(F, FILL, 'setting.value[0] != 0')])
